@@ -933,6 +933,18 @@ func TestVerifC02(t *testing.T) {
 	if rec.Replay != nil {
 		var probe map[string]interface{}
 		json.Unmarshal(rec.Replay, &probe)
+		switch probe["scenario"] {
+		case "history":
+			var c histCase
+			json.Unmarshal(rec.Replay, &c)
+			runHistory(rec, &c)
+			return
+		case "crowd":
+			var c crowdCase
+			json.Unmarshal(rec.Replay, &c)
+			runCrowd(rec, &c)
+			return
+		}
 		if _, isStress := probe["goroutines"]; isStress {
 			var c stressCase
 			json.Unmarshal(rec.Replay, &c)
@@ -985,8 +997,26 @@ func TestVerifC02(t *testing.T) {
 	for _, c := range carriers {
 		items = append(items, item{"slow", c, 0})
 	}
+	// long lives of one session: histories of connections that have come and gone, crowds of open connections
+	hparts := rec.Pick(2, 4)
+	for _, c := range carriers {
+		for pt := 0; pt < hparts; pt++ {
+			items = append(items, item{"history", c, pt})
+		}
+	}
 	for idx, it := range items {
 		if !rec.Mine(idx) {
+			continue
+		}
+		if it.Kind == "history" {
+			for i, c := range histCases(rec, it.Carrier) {
+				if i%hparts == it.Part {
+					runHistory(rec, c)
+				}
+			}
+			if it.Part == 0 {
+				runCrowd(rec, crowdFor(rec, it.Carrier))
+			}
 			continue
 		}
 		if it.Kind == "silent" {
